@@ -279,7 +279,7 @@ func runPreseed(s Scen) (res result) {
 	if k, d := netsim.Audit("c11", t, V.CM); k != "" {
 		res.fail = &failure{k, fmt.Sprintf("after a block pre-seeded by a relayed outline (stored: %v) was served again inside an instant-sync answer: %s", stored, d)}
 	}
-	time.Sleep(2300 * time.Millisecond) // let the failed round end before the honest peer appears
+	waitRoundEnd(V) // let the failed round end before the honest peer appears
 	E2.Close()
 	if !c.startHonest() {
 		return
